@@ -10,6 +10,19 @@ Seqs(n) == UNION {[1..k -> ChunkVals] : k \in 0..n}      \* all chunk sequences 
 
 \* content types: text/plain;charset=utf8, application/octet-stream, text/x-t;a="b c";k="v", application/x-bin;n="1"
 CTs == {"text", "bin", "par", "binp"}
+\* content types that differ ONLY in the letter case of a parameter value (parameter values are case-sensitive):
+\*   tiA text/plain;charset=utf8;title="build log"     tiB ...;title="Build Log"
+\*   bdA application/x-report;boundary="abcdef"         bdB ...;boundary="aBcDeF"
+\* Both members of a pair are sent through the converters in one history, in both orders (two details of one
+\* test, and two tests of one run), because a parser that remembers earlier MIME strings is history dependent.
+CaseCTs == {"tiA", "tiB", "bdA", "bdB"}
+CasePairs == { <<"tiA", "tiB">>, <<"tiB", "tiA">>, <<"bdA", "bdB">>, <<"bdB", "bdA">> }
+CTsAll == CTs \cup CaseCTs
+
+\* chunk sequences whose boundary falls INSIDE a multi-byte character of a utf8 text detail (concretised by the
+\* driver: e1|e2 = the two bytes of U+00E9 cut in the middle, s1|s2 = a 4-byte character U+1F600 cut 2+2);
+\* the bytes of the whole detail are valid UTF-8, no single chunk is
+SplitSeqs == { <<"e1", "e2">>, <<"s1", "s2">>, <<"e1", "", "e2">>, <<"x", "s1", "s2">> }
 
 \* ---- payload alphabets (a payload = the details dict in insertion order) ----
 Short == { <<>>, <<"">>, <<"x">>, <<"", "yz">>, <<"x", "yz">>, <<"yz", "", "x">> }
@@ -18,12 +31,17 @@ Two(S, CC) == { <<D("d1", cc[1], s1), D("d2", cc[2], s2)>> : s1 \in S, s2 \in S,
 
 \* quick: every chunk sequence up to 3 for one binary detail, the short ones for every content type,
 \* every pair of short ones for two content-type pairs                                   (1 + 40 + 18 + 72 = 131)
+\* plus: split multi-byte characters (text types), content types differing only in case (both orders)  (+ 8 + 2 + 8)
+PayX == One(SplitSeqs, {"text", "tiB"})
+        \cup { <<D("d1", "bin", <<"x">>), D("d2", "text", <<"s1", "s2">>)>>, <<D("d1", "text", <<"e1", "e2">>), D("d2", "par", <<"e1", "e2">>)>> }
+        \cup Two({<<"x">>}, CasePairs) \cup { <<D("d1", cc[1], <<"e1", "e2">>), D("d2", cc[2], <<"yz", "">>)>> : cc \in CasePairs }
 PayQ == {<<>>} \cup One(Seqs(3), {"bin"}) \cup One(Short, {"text", "par", "binp"})
-               \cup Two(Short, {<<"text", "bin">>, <<"par", "par">>})
+               \cup Two(Short, {<<"text", "bin">>, <<"par", "par">>}) \cup PayX
 \* thorough: one detail = every sequence x every content type; two details = every pair up to length 2 x 3 type pairs
 PayT == {<<>>} \cup One(Seqs(3), CTs)
                \cup Two(Seqs(2), {<<"text", "bin">>, <<"par", "par">>, <<"binp", "text">>})
                \cup Two({<<"x", "", "yz">>, <<"", "", "">>, <<>>}, {<<"bin", "par">>})
+               \cup PayX \cup One(SplitSeqs \cup {<<"x">>, <<>>}, CTsAll) \cup Two(SplitSeqs, CasePairs)
 \* small: for histories of several tests
 P0 == <<>>
 P1 == <<D("d1", "bin", <<"x", "yz">>)>>
@@ -40,7 +58,12 @@ Fixed ==  { Call("success", "plain", <<>>, None), Call("uxsuccess", "plain", <<>
 \* a skip whose reason travels inside the details, as TestCase reports it
 SkipWithReasonDetail(P) == { Call("skip", "details", <<D("reason", "text", <<r>>)>> \o p, None) : r \in {"r1"}, p \in P }
 
-CallsOver(P) == { Call(k, "details", p, None) : k \in Kinds, p \in P } \cup Fixed
+\* ... also when the reason detail's text is cut inside a character
+SkipWithSplitReason == { Call("skip", "details", <<D("reason", "text", <<"e1", "e2">>)>>, None) }
+\* one detail of each case-variant content type: two tests of one run give every ordered pair
+CaseCalls == { Call(k, "details", <<D("d1", ct, <<"x">>)>>, None) : k \in {"success"}, ct \in CaseCTs }
+
+CallsOver(P) == { Call(k, "details", p, None) : k \in Kinds, p \in P } \cup Fixed \cup SkipWithSplitReason
 CallsQ == CallsOver(PayQ) \cup SkipWithReasonDetail({P0, P1, P2})
 CallsT == CallsOver(PayT) \cup SkipWithReasonDetail({P0, P1, P2, P3})
 
@@ -48,7 +71,7 @@ CallsT == CallsOver(PayT) \cup SkipWithReasonDetail({P0, P1, P2, P3})
 CallsH == Fixed \cup { Call("success", "details", P2, None), Call("failure", "details", P3, None),
                        Call("error", "details", P1, None), Call("skip", "details", P3, None),
                        Call("xfail", "details", P1, None), Call("uxsuccess", "details", P2, None) }
-              \cup SkipWithReasonDetail({P1})
+              \cup SkipWithReasonDetail({P1}) \cup CaseCalls
 \* three tests: one form per kind
 CallsS == { Call("success", "plain", <<>>, None), Call("failure", "exc", <<>>, None),
             Call("error", "details", P1, None), Call("skip", "reason", <<>>, "r1"),
